@@ -313,6 +313,87 @@ fn source(c: &Case) -> Arc<[Frame]> {
 		.into()
 }
 
+fn clock_free(c: &Case) -> bool {
+	let st_ok = |s: St| matches!(s, St::Immediate | St::Delayed(_));
+	let tw_ok = |t: &Tw| st_ok(t.start);
+	st_ok(c.start_time)
+		&& c.fade_in.as_ref().map(tw_ok).unwrap_or(true)
+		&& c.cmds.iter().all(|(_, cmd)| match cmd {
+			Cmd::Pause(t) | Cmd::Resume(t) | Cmd::Stop(t) | Cmd::Volume(_, t) => tw_ok(t),
+			Cmd::ResumeAt(s, t) => st_ok(*s) && tw_ok(t),
+			_ => true,
+		})
+}
+
+/// The same static sound with the same command history on the main track of a real manager
+/// (callbacks of `cb` frames, internal buffer `ibs`) and driven directly with the renderer's
+/// chunking: states after every callback and every output frame must agree exactly, so every
+/// fade-driven step completes at the same audio time in both.
+fn through_the_manager(c: &Case, ibs: usize, cb: usize) -> Result<(), Failure> {
+	let ids = {
+		let mut mb = MockInfoBuilder::new();
+		let clock = mb.add_clock(true, 0, 0.0);
+		let missing = mb.add_clock(true, 0, 0.0);
+		Ids { clock, missing }
+	};
+	let frames = source(c);
+	let data = || {
+		let mut settings = StaticSoundSettings::new().start_time(start_time(c.start_time, &ids)).fade_in_tween(c.fade_in.map(|t| tween(t, &ids)));
+		if c.looping {
+			settings = settings.loop_region(..);
+		}
+		StaticSoundData {
+			sample_rate: c.rate_hz,
+			frames: frames.clone(),
+			settings,
+			slice: None,
+		}
+	};
+	let mut mgr = default_manager(c.rate_hz, ibs);
+	let mut hm = mgr.play(data()).map_err(|_| Failure::simple("setup", "play"))?;
+	let (mut sound, mut hd) = data().into_sound().map_err(|_| Failure::simple("setup", "into_sound"))?;
+	let info = MockInfoBuilder::new().build();
+	let dt = 1.0 / c.rate_hz as f64;
+	for k in 0..c.n_chunks {
+		for (_, cmd) in c.cmds.iter().filter(|(at, _)| *at == k) {
+			for h in [&mut hm, &mut hd] {
+				match cmd {
+					Cmd::Pause(tw) => h.pause(tween(*tw, &ids)),
+					Cmd::Resume(tw) => h.resume(tween(*tw, &ids)),
+					Cmd::ResumeAt(s, tw) => h.resume_at(start_time(*s, &ids), tween(*tw, &ids)),
+					Cmd::Stop(tw) => h.stop(tween(*tw, &ids)),
+					Cmd::SeekTo(p) => h.seek_to(*p),
+					Cmd::SeekBy(p) => h.seek_by(*p),
+					Cmd::Volume(v, tw) => h.set_volume(Decibels(*v), tween(*tw, &ids)),
+					Cmd::Rate(r) => h.set_playback_rate(PlaybackRate(*r), Tween { duration: Duration::ZERO, ..Default::default() }),
+					Cmd::LoopOff => h.set_loop_region(None),
+				}
+			}
+		}
+		let out = mgr.backend_mut().callback(cb, 2);
+		if let Some(p) = &out.guard.panic {
+			return Err(Failure::panic("", p));
+		}
+		let mut direct = vec![Frame::ZERO; cb];
+		let was_finished = sound.finished();
+		if !was_finished {
+			sound.on_start_processing();
+			let mut i = 0;
+			while i < cb {
+				let n = ibs.min(cb - i);
+				sound.process(&mut direct[i..i + n], dt, &info);
+				i += n;
+			}
+		}
+		for i in 0..cb {
+			let (l, r) = out.frame(i, 2);
+			ensure!(l == direct[i].left.clamp(-1.0, 1.0) && r == direct[i].right.clamp(-1.0, 1.0), "same-through-the-manager", "callback {k} ({cb} frames, internal buffer {ibs}) frame {i}: the manager renders ({l}, {r}), the sound driven directly {:?}; case {c:?}", direct[i]);
+		}
+		ensure!(hm.state() == hd.state(), "same-through-the-manager", "after callback {k} ({cb} frames, internal buffer {ibs}) the sound in the manager reports {:?}, the sound driven directly {:?}: a fade-driven step completed at a different audio time; case {c:?}", hm.state(), hd.state());
+	}
+	Ok(())
+}
+
 fn run_case(c: &Case) -> Result<(bool, bool, bool), Failure> {
 	streamctl::install();
 	streamctl::set_callback_active(false);
@@ -767,7 +848,7 @@ impl Property for C03 {
 		"C03"
 	}
 	fn rule(&self) -> &'static str {
-		"each case plays one static or streaming sound (a looping DC sound whose output equals its gain, or a finite ramp) as Box<dyn Sound> and issues a history of pause / resume / resume_at (delayed, clock, missing clock) / stop / seek_to / seek_by / set_volume / set_playback_rate / set_loop_region commands with generated tweens (zero, sub-callback, several callbacks; all easings; immediate / delayed / clock starts) at arbitrary callback boundaries, with the sound's own start time immediate / delayed / clock / missing clock and an optional fade-in. A reference life-cycle machine written from the handle documentation runs alongside. After every callback: reported state within one callback of the reference; exact silence and frozen position while Paused / WaitingToResume / Stopped; Stopped is final (state, finished(), silence); DC envelope equals the reference fade (2e-5), is monotone during a fade and ends at exactly 0 / exactly the source value; stop is never lost and finite sounds end. Enumeration: every sequence of up to 3 (quick) / 4 (thorough) letters of a 10-letter alphabet x 3 spacings, for static and streaming, looping and finite. Through the manager: Stopped sounds are unloaded at the next callback and a capacity-1 track accepts a new sound. Non-trivial = a command arrives while a fade is in progress, or resume_at is used; distinct = distinct decoded choices."
+		"each case plays one static or streaming sound (a looping DC sound whose output equals its gain, or a finite ramp) as Box<dyn Sound> and issues a history of pause / resume / resume_at (delayed, clock, missing clock) / stop / seek_to / seek_by / set_volume / set_playback_rate / set_loop_region commands with generated tweens (zero, sub-callback, several callbacks; all easings; immediate / delayed / clock starts) at arbitrary callback boundaries, with the sound's own start time immediate / delayed / clock / missing clock and an optional fade-in. A reference life-cycle machine written from the handle documentation runs alongside. After every callback: reported state within one callback of the reference; exact silence and frozen position while Paused / WaitingToResume / Stopped; Stopped is final (state, finished(), silence); DC envelope equals the reference fade (2e-5), is monotone during a fade and ends at exactly 0 / exactly the source value; stop is never lost and finite sounds end. Enumeration: every sequence of up to 3 (quick) / 4 (thorough) letters of a 10-letter alphabet x 3 spacings, for static and streaming, looping and finite. Through the manager: Stopped sounds are unloaded at the next callback and a capacity-1 track accepts a new sound; a quarter of the static, clock-free cases are repeated on the main track of a real manager (internal buffer 1..128, callback sizes that are not multiples of it) next to the same sound driven directly: states after every callback and every output frame must agree exactly. Non-trivial = a command arrives while a fade is in progress, or resume_at is used; distinct = distinct decoded choices."
 	}
 	fn assumptions(&self) -> Vec<String> {
 		vec![
@@ -827,6 +908,14 @@ impl Property for C03 {
 			ctx.count("unload-checks", 1);
 		}
 		let mut classes = vec![if case.streaming { "streaming" } else { "static" }, if case.looping { "looping-dc" } else { "finite" }];
+		// a quarter of the static, clock-free cases again on the main track of a real manager, with
+		// callbacks that are not a multiple of the internal buffer
+		if !case.streaming && clock_free(&case) && src.chance(1, 4) {
+			let ibs = src.pick(&[16usize, 1, 7, 64, 128]);
+			let cb = case.chunk * src.usize_in(1, 3) + src.pick(&[0usize, 1, 5]);
+			through_the_manager(&case, ibs, cb)?;
+			classes.push("through-the-manager");
+		}
 		if cmd_during_fade {
 			classes.push("command-during-fade");
 		}
